@@ -83,6 +83,9 @@ func NewEventJSONsFromEvents(he []PDU) EventJSONs {
 //
 // Returns a gomatrixserverlib.BadJSONError if JSON validation fails.
 func CanonicalJSON(input []byte) ([]byte, error) {
+	if jsonNestingExceeds(input, maxJSONDepth) {
+		return nil, BadJSONError{errors.New("exceeded max depth")}
+	}
 	if !gjson.Valid(string(input)) {
 		return nil, BadJSONError{errors.New("gjson validation failed")}
 	}
@@ -112,9 +115,48 @@ func EnforcedCanonicalJSON(input []byte, roomVersion RoomVersion) ([]byte, error
 
 var ErrCanonicalJSON = errors.New("value is outside of safe range")
 
+// maxJSONDepth is the nesting depth beyond which a JSON document is refused, as encoding/json
+// refuses it: validating, checking and sorting a document recurse once per level, and a
+// document nested deeply enough overflows the stack, which ends the process.
+const maxJSONDepth = 10000
+
+// jsonNestingExceeds reports whether arrays and objects are nested more than limit deep.
+// It does not validate the document.
+func jsonNestingExceeds(input []byte, limit int) bool {
+	depth := 0
+	inString := false
+	for i := 0; i < len(input); i++ {
+		c := input[i]
+		if inString {
+			switch c {
+			case '\\':
+				i++
+			case '"':
+				inString = false
+			}
+			continue
+		}
+		switch c {
+		case '"':
+			inString = true
+		case '{', '[':
+			depth++
+			if depth > limit {
+				return true
+			}
+		case '}', ']':
+			depth--
+		}
+	}
+	return false
+}
+
 func noVerifyCanonicalJSON(input []byte) error { return nil }
 
 func verifyEnforcedCanonicalJSON(input []byte) error {
+	if jsonNestingExceeds(input, maxJSONDepth) {
+		return errors.New("exceeded max depth")
+	}
 	valid := true
 	res := gjson.ParseBytes(input)
 	var iter func(key, value gjson.Result) bool
